@@ -184,9 +184,9 @@ class CompositeTransform(SpatialTransform):
         if grid.same_domain_as(self.grid()):
             y = self.forward(x)
         else:
-            y = grid_transform_points(x, grid, axes, self.grid(), self.axes())
+            y = grid_transform_points(x, grid, axes, self.grid(), self.axes(), decimals=None)
             y = self.forward(y)
-            y = grid_transform_points(y, self.grid(), self.axes(), grid, axes)
+            y = grid_transform_points(y, self.grid(), self.axes(), grid, axes, decimals=None)
         u = y - x
         u = move_dim(u, -1, 1)
         return u
